@@ -101,10 +101,14 @@ PropClauses(c, ver, lib, cpylines, insp, removal) ==
         \* ---------------- C09
         <<"P09.justified", ok => \A k \in DOMAIN removal :
               LET r == removal[k] IN (ranks[r[1]][r[2]] = r[2]) => r[3]>>,
+        \* as multisets: the property does not fix the order in which additional arguments are listed
         <<"P09.additional", same =>
-              [k \in DOMAIN lib.additional |-> <<lib.additional[k][1], lib.additional[k][2]>>]
-              = Unreferenced("N", c.names, used.N) \o Unreferenced("V", c.varnames, used.V)
-                \o Unreferenced("C", c.cellvars, used.C) \o Unreferenced("K", c.consts, used.K)>>
+              LET got == [k \in DOMAIN lib.additional |-> <<lib.additional[k][1], lib.additional[k][2]>>]
+                  want == Unreferenced("N", c.names, used.N) \o Unreferenced("V", c.varnames, used.V)
+                          \o Unreferenced("C", c.cellvars, used.C) \o Unreferenced("K", c.consts, used.K)
+                  cnt(sq, x) == Cardinality({k \in DOMAIN sq : sq[k] = x})
+              IN /\ Len(got) = Len(want)
+                 /\ \A k \in DOMAIN want : cnt(got, want[k]) = cnt(want, want[k])>>
        ,
         \* ---------------- C14
         <<"P14.iter", ok =>
